@@ -41,6 +41,8 @@ func c08Replay(r *h.Result, rng *h.Rng, path string) error {
 			Query   string    `json:"query"`
 			Ctx     *mctx     `json:"ctx"`
 			ModelOp string    `json:"model_op"`
+			OpA     string    `json:"model_op_a"`
+			OpB     string    `json:"model_op_b"`
 			Case    *postCase `json:"case"`
 			Rows    []postEntry
 			D       int64
@@ -51,6 +53,18 @@ func c08Replay(r *h.Result, rng *h.Rng, path string) error {
 		var pc postCase
 		if json.Unmarshal(o, &pc) == nil && pc.D > 0 && pc.Step > 0 {
 			c.Case = &pc
+		}
+		if c.OpA != "" && c.OpB != "" {
+			// the same rows in two table orders
+			ans, err := h.Model([]string{c.OpA, c.OpB})
+			if err != nil {
+				return err
+			}
+			if ans[0] != ans[1] {
+				r.Violate("C08/first-last-tie-follows-row-order", "the same rows in two table orders give different results for "+c.Query,
+					map[string]any{"query": c.Query, "rows_order_a": string(h.UnHex(ans[0])), "rows_order_b": string(h.UnHex(ans[1]))})
+			}
+			r.Case("replay:order", true)
 		}
 		switch {
 		case c.Case != nil && c.Case.D > 0:
@@ -81,13 +95,32 @@ func c08Replay(r *h.Result, rng *h.Rng, path string) error {
 			if err != nil {
 				return fmt.Errorf("replayed query does not parse: %w", err)
 			}
-			ser, err := serMetric(script)
-			if err != nil {
-				return fmt.Errorf("replayed query is outside the fragment: %w", err)
-			}
 			ctx := genMCtx(rng, scriptDuration(script))
 			if c.Ctx != nil {
 				ctx = *c.Ctx
+			}
+			ser, err := serMetric(script)
+			if err != nil {
+				// a query of the labelled path (label-rewriting stages in the selector, quantile_over_time)
+				serX, errX := c08xSer(script)
+				if errX != nil {
+					return fmt.Errorf("replayed query is outside the fragment: %v / %v", err, errX)
+				}
+				sqlText, _, err := c08xImplSQL(c.Query, ctx)
+				if err != nil {
+					r.Violate("C08/fragment-query-not-planned", "a metric query of the modelled fragment is rejected by the planner: "+err.Error(),
+						map[string]any{"query": c.Query, "ctx": ctx})
+				} else {
+					if err := r.Compare("textx", []string{"c08planx " + ctx.ser() + " " + serX}, []string{h.Hex([]byte(sqlText))},
+						[]any{map[string]any{"query": c.Query, "ctx": ctx}}); err != nil {
+						return err
+					}
+					if err := c08xOracle(r, rng, c.Query, ctx, sqlText); err != nil {
+						return err
+					}
+				}
+				r.Case("replay:queryx", true)
+				continue
 			}
 			if sqlText, err := implMetricSQL(script, ctx); err != nil {
 				r.Violate("C08/fragment-query-not-planned", "a metric query of the modelled fragment is rejected by the planner: "+err.Error(),
